@@ -320,6 +320,8 @@ class FormulaParser:
                     # Stack has arguments in reverse order.
                     node.right = stack.pop()
                     node.left = stack.pop()
+                elif node.ttype == "operator-postfix":
+                    node.left = stack.pop()
                 else:
                     node.right = stack.pop()
 
